@@ -11,6 +11,15 @@ LEN = 360  # initialWidth/Height 400 minus the default margins 20 + 20
 ONE = 1 + Fraction(1, 10**7)  # 1 unit of integer truncation plus the rounding of the other operand's printed decimals
 
 
+def axis_len(cfg):
+    """inner length of the axis: initialWidth - margin.left - margin.right for up/down, the height analogue for left/right"""
+    sz = cfg.get("size")
+    if not sz:
+        return LEN
+    W, H, m = sz
+    return (W - m["left"] - m["right"]) if cfg["direction"] in ("up", "down") else (H - m["top"] - m["bottom"])
+
+
 def horiz(d):
     return d in ("up", "down")
 
@@ -70,7 +79,7 @@ def c07(sink, cfg, tl, data, P, V, affine, mode, uni2tex=None):
     ok("one-dot-link-and-box-per-datum", len(P["dots"]) == n and len(P["links"]) == n and len(P["boxes"]) == n, info="dots=%d links=%d boxes=%d data=%d" % (len(P["dots"]), len(P["links"]), len(P["boxes"]), n))
     if not (len(P["dots"]) == n and len(P["links"]) == n and len(P["boxes"]) == n and len(tl.nodes) == n):
         return
-    ok("axis-line-spans-the-full-length", P["axis"] == ("x" if horiz(d) else "y", str(LEN)), info=str(P["axis"]))
+    ok("axis-line-spans-the-full-length", P["axis"] == ("x" if horiz(d) else "y", str(axis_len(cfg))), info=str(P["axis"]))
     seen = set()
     pad = cfg.get("padding") or PAD
     pad_along = pad["left"] + pad["right"]
